@@ -53,6 +53,9 @@ RULE = (
 )
 PARTIAL = [
     "session teardown hooks behind DELETE {prefix}/__session__ are covered by the theorem and by the 401 check, not by the invocation log",
+    "theorem C20 (a request the callback WOULD reject runs nothing, even when exempt) assumes the prefix is not /.well-known or below it: "
+    "paths under /.well-known/ bypass authentication by design, so a service mounted there is unauthenticated; C20_exact / "
+    "C20_consulted (the literal property) need no such assumption",
 ]
 MANIFEST = {
     "level": "proof",
@@ -646,11 +649,11 @@ def run(ctx: Any) -> None:
             p = cfg["pfx"] + rel
             body, bf = body_for(h, cfg, p)
             check_request(ctx, cfg, h, "POST", p, "bad", body, {"body_for": bf})
-    n_rand = ctx.budget(5, 40)
+    n_rand = ctx.budget(8, 40)
     for _ in range(n_rand):
         cfgs.append(random_cfg(ctx.rng))
     full = ctx.tier == "thorough" or ctx.deep
-    n_mut = ctx.budget(25, 100)
+    n_mut = ctx.budget(40, 100)
     for i, cfg in enumerate(cfgs):
         run_cfg(ctx, cfg, n_mut, full)
         if ctx.deep and ctx.tier != "thorough" and len(ctx.failures) >= 8 and i >= 3:
